@@ -34,14 +34,8 @@ static void val_print_depth(NanoValue v, FILE *out, int depth) {
             fprintf(out, "%u", v.as.u8);
             break;
         case TAG_FLOAT: {
-            /* Print without trailing zeros, but always with at least one decimal */
-            double d = v.as.f64;
-            /* range first: converting an out-of-range double to long long is undefined */
-            if (d >= -1e15 && d <= 1e15 && d == (long long)d) {
-                fprintf(out, "%.1f", d);
-            } else {
-                fprintf(out, "%g", d);
-            }
+            /* same format as the native backend, the interpreter and float-to-string below */
+            fprintf(out, "%g", v.as.f64);
             break;
         }
         case TAG_BOOL:
